@@ -155,7 +155,7 @@ def run_notes(ch):
     f = img.f
     count = ch.pick('count', [2, 0, 1, 5])
     pname = ch.pick('probe.name', ['GNU', None, 'CORE', 'a', 'ab', 'abc', 'abcd', 'abcde', 'LINUX\0\0', 'unknown-owner-1234'])
-    pkind = ch.pick('probe.descriptor', ['raw4', 'raw0', 'raw1', 'raw2', 'raw3', 'raw5', 'raw16', 'raw300', 'abi_tag', 'abi_tag_unknown_os', 'build_id20', 'build_id0',
+    pkind = ch.pick('probe.descriptor', ['abi_tag', 'raw4', 'raw0', 'raw1', 'raw2', 'raw3', 'raw5', 'raw16', 'raw300', 'abi_tag_unknown_os', 'build_id20', 'build_id0',
                                           'build_id1', 'gold', 'props0', 'props1', 'props3', 'props_stack8', 'props_stack4', 'props_odd12', 'props_unknown', 'prpsinfo',
                                           'ntfile0', 'ntfile1', 'ntfile3'])
     ptype_override = ch.pick('probe.n_type', [None, 0, 2, 6, 0x53494749, 0x46494c46, 0x100, 0xffffffff])
